@@ -145,7 +145,7 @@ pub fn gen_case(campaign: &str, r: &mut Rng) -> Case {
             let n = 1 + r.below(12) as usize;
             let pw = pw_pieces(r, tag, n, is_logish(tag), true);
             let ends: Vec<f64> = pw.iter().map(|s| s.0).collect();
-            let x = if is_logish(tag) { ends[r.below(n as u64) as usize].max(0.01) * *r.pick(&[1.0, 0.999, 1.001, 0.5, 2.0]) } else { query_near(r, &ends) };
+            let x = if r.chance(1, 40) { f64::NAN } else if is_logish(tag) { ends[r.below(n as u64) as usize].max(0.01) * *r.pick(&[1.0, 0.999, 1.001, 0.5, 2.0]) } else { query_near(r, &ends) };
             let dup = ends.windows(2).any(|w| w[0] == w[1]);
             let hit = ends.iter().any(|e| *e == x);
             let mut c = Case::new("pweval", tag)
@@ -204,6 +204,9 @@ pub fn gen_case(campaign: &str, r: &mut Rng) -> Case {
             let sorted = r.chance(2, 3);
             if sorted {
                 xs.sort_by(|a, b| a.partial_cmp(b).unwrap());
+            } else if r.chance(1, 6) && !xs.is_empty() {
+                let i = r.below(xs.len() as u64) as usize;
+                xs[i] = f64::NAN; // C16: every f64 argument is accepted
             }
             let mut c = Case::new("evalv", tag)
                 .set("pw", Val::Pw(pw))
